@@ -42,9 +42,9 @@ CLAIMED.update({
    ref="4/C09", technique="SIBLINGS over implementations of one interface, SSA path analysis (SEND-DISCIPLINE, must-pass), dominance cuts with phi-fact pruning (GUARD), value provenance, constant tables",
    note="resourceMask internals, gridbuilder and the CU-side completion (C14) not covered here; one defect (LDS demand ignored dynamic local memory) found and repaired by a fix: commit"),
  "C11": dict(
-   text="Structural clauses of host-device copies: the range-overlap predicate decided on all 75 weak orderings of its arguments (order-domain abstract interpretation of its comparison skeleton), completion only on an empty outstanding list / finished request collection, six splitting loops (chunk = min(remaining, address-dependent unit remainder), one step for all cursors, slice and size = chunk), piece addressing via the page found for the address, SEND-DISCIPLINE of DMA/CP/driver send stages, clone FIELDS, flush-before-copy ordering and CP gates, dirty marks, a copy command enters the running state only for a non-zero size, and every response handler that removes a request from a command can retire it. Byte equality for all offsets/lengths is not decided.",
+   text="Structural clauses of host-device copies: the range-overlap predicate decided on all 75 weak orderings of its arguments (order-domain abstract interpretation of its comparison skeleton), completion only on an empty outstanding list / finished request collection, six splitting loops (chunk = min(remaining, address-dependent unit remainder), one step for all cursors, slice and size = chunk), piece addressing via the page found for the address, SEND-DISCIPLINE of DMA/CP/driver send stages, clone FIELDS, flush-before-copy ordering and CP gates, dirty marks kept per process (launches mark and copies consult the buffers of every context with the command's PID), a copy command enters the running state only for a non-zero size, and every response handler that removes a request from a command can retire it. Byte equality for all offsets/lengths is not decided.",
    ref="4/C11", technique="order-domain abstract interpretation (ORDER-DOMAIN), SSA loop-shape analysis of splitting loops, SSA path analysis (SEND-DISCIPLINE, must-pass), dominance cuts (GUARD), value provenance (FIELDS)",
-   note="arithmetic over runtime values and cache flush effectiveness not decided; 3 unchecked Sends of the CP middleware recorded as known findings; three defects (memRangeOverlap containment, zero-length copies never completing, copies never completing when a flush of another GPU returned last - the cause of the repository's hanging mccl suite) repaired by fix: commits"),
+   note="arithmetic over runtime values and cache flush effectiveness not decided; 3 unchecked Sends of the CP middleware recorded as known findings; four defects (memRangeOverlap containment, zero-length copies never completing, copies never completing when a flush of another GPU returned last - the cause of the repository's hanging mccl suite -, dirty tracking per context instead of per process) repaired by fix: commits"),
 })
 
 CLAIMED.update({
@@ -77,16 +77,16 @@ CLAIMED.update({
 
 CLAIMED.update({
  "C03": dict(
-   text="ISA rules that are uniform across opcodes and visible in the code shape, for both ALUs and all paths: dispatch integrity of every opcode switch (one handler per case, panicking default, listed functional no-ops only), ALL-OR-NONE of condition-code writes in every handler, shift-amount intervals in every handler of a shift instruction (handlers tied to instruction names through decode table, dispatch switch and callee), destination-only operand writes and PC/EXEC writers restricted by instruction name, carry predicates of carry-in instructions evaluated in 64 bits, every float-to-integer conversion of an operand value reached only after range tests on the floating-point value (and no clamp that the operand's type makes dead), no result variable left at its zero value by an open if/else-if chain; every compare handler decided exactly on the ordering domain {less, equal, greater, unordered} against the truth table its mnemonic prescribes, with kind / signedness / width of the compared values; LDS handlers address ADDR plus their (scaled) offset field; bitwise handlers decided exactly by per-bit truth tables; operand selection of integer min/max, polarity of cndmask/cselect/cmov and of conditional branches with their target formula, operand order of sub/subrev and shift/shiftrev pairs; sources read before destinations are written; bits 32..63 of a raw operand never decide the result of a 32-bit instruction; SCC of signed add/sub from the signed overflow condition; IEEE bit patterns never used as numbers; float min / max decided on ranks and NaN operands; the SDWA select helpers decided bit by bit (origin of every result bit for every select constant and dst_unused mode) and SDWA-encoded instructions never executed as plain ones. Bit-exact arithmetic conformance needs an executable ISA transcription and is not decided.",
+   text="ISA rules that are uniform across opcodes and visible in the code shape, for both ALUs and all paths: dispatch integrity of every opcode switch (one handler per case, panicking default, listed functional no-ops only), ALL-OR-NONE of condition-code writes in every handler, shift-amount intervals in every handler of a shift instruction (handlers tied to instruction names through decode table, dispatch switch and callee), destination-only operand writes and PC/EXEC writers restricted by instruction name, carry predicates of carry-in instructions evaluated in 64 bits, every float-to-integer conversion of an operand value reached only after range tests on the floating-point value (and no clamp that the operand's type makes dead), no result variable left at its zero value by an open if/else-if chain; every compare handler decided exactly on the ordering domain {less, equal, greater, unordered} against the truth table its mnemonic prescribes, with kind / signedness / width of the compared values; LDS handlers address ADDR plus their (scaled) offset field; bitwise handlers decided exactly by per-bit truth tables; operand selection of integer min/max, polarity of cndmask/cselect/cmov and of conditional branches with their target formula, operand order of sub/subrev and shift/shiftrev pairs; sources read before destinations are written; bits 32..63 of a raw operand never decide the result of a 32-bit instruction; SCC of signed add/sub from the signed overflow condition; IEEE bit patterns never used as numbers; float min / max decided on ranks and NaN operands; the SDWA select helpers decided bit by bit (origin of every result bit for every select constant and dst_unused mode) and SDWA-encoded instructions never executed as plain ones; VOP3 abs / neg modifiers applied to every data source of the instructions that accept them; every decoded field of an instruction consulted by execution or exempt with a reason; no dispatch case without a decode row. Bit-exact arithmetic conformance needs an executable ISA transcription and is not decided.",
    ref="4/C03", technique="constant-table evaluation (decode table and dispatch switches), must-pass path analysis (ALL-OR-NONE), interval analysis on SSA (INTERVAL), who-may-write, finite-domain evaluation of comparison skeletons (ORDER-DOMAIN), bit-provenance evaluation of field helpers (BITPROV), value provenance of addresses",
-   note="arithmetic, rounding, saturation and comparison semantics of individual opcodes are not decided; defect families found and repaired by fix: commits: one-sided SCC, unmasked shifts, v_cvt_i32_f32 saturation tested after conversion, v_div_scale_f64 default result and denormal classification, compare handlers (lg/nlg NaN, u32 width, CDNA3 ge_f32_e64), ds_read_b64 offset, 20 handlers of 32-bit instructions reading 64 operand bits, s_addc_u32 carry, s_cmpk compares, float min/max with a NaN operand, SDWA dst_unused and SDWA add, SDWA silently ignored by 36 VOP2 handlers; known findings pinned by upstream tests: GCN3 s_add_i32 SCC, v_div_fixup_f64 using bit patterns as numbers (14 sites)"),
+   note="arithmetic, rounding, saturation and comparison semantics of individual opcodes are not decided; defect families found and repaired by fix: commits: one-sided SCC, unmasked shifts, v_cvt_i32_f32 saturation tested after conversion, v_div_scale_f64 default result and denormal classification, compare handlers (lg/nlg NaN, u32 width, CDNA3 ge_f32_e64), ds_read_b64 offset, 20 handlers of 32-bit instructions reading 64 operand bits, s_addc_u32 carry, s_cmpk compares, float min/max with a NaN operand, SDWA dst_unused and SDWA add, SDWA silently ignored by 36 VOP2 handlers, v_cndmask_b32_e64 / v_div_scale ignoring abs and neg, clamp and GDS bits dropped, CDNA3 v_div_scale_f64 filed under the wrong opcode; known findings pinned by upstream tests: GCN3 s_add_i32 SCC, v_div_fixup_f64 using bit patterns as numbers (14 sites)"),
 })
 
 CLAIMED.update({
  "C12": dict(
-   text="Structural conditions whose absence is the lost wake-up, the data race or the reordering, on all paths of amd/driver: capacity >= 1 of every channel targeted by a non-blocking send, the subscribe / test / wait / re-test shape of the drain loop, a guarded-by lockset analysis for five field/mutex pairs, no mixed atomic/plain access, FIFO ownership of the command list (tail append, head removal, index 0), one command at a time per queue, a frozen inventory of goroutines, multi-way selects, engine runs and signal receivers, and the runAsync / runEngine hand-off (a run request recorded while the engine is flagged as running is honoured before the flag is cleared). Liveness under all interleavings is a model-checking question and is not decided.",
+   text="Structural conditions whose absence is the lost wake-up, the data race or the reordering, on all paths of amd/driver: capacity >= 1 of every channel targeted by a non-blocking send, the subscribe / test / wait / re-test shape of the drain loop, a guarded-by lockset analysis for six field/mutex pairs, no mixed atomic/plain access, FIFO ownership of the command list (tail append, head removal, index 0), one command at a time per queue, a frozen inventory of goroutines, multi-way selects, engine runs and signal receivers, the runAsync / runEngine hand-off (a run request recorded while the engine is flagged as running is honoured before the flag is cleared), no host-destination write and no trace-task start after the call that releases the waiting threads, thread-shared fields discovered from the thread entry points (application API versus Tick / Handle) and required to be accessed under one common mutex (locks held at all call sites of a helper count), and every device address a launch reads copied earlier on the launching queue. Liveness under all interleavings is a model-checking question and is not decided.",
    ref="4/C12", technique="lockset dataflow on the CFG (guarded-by), dominance cuts (GUARD), who-may-write / shape rules on SSA, inventory of concurrency constructs",
-   note="memory effects between commands are not decided; four defects (unbuffered signal channel, plain read of nextPID, unlocked findContext, run request lost while the engine leaves Run) found and repaired by fix: commits"),
+   note="memory effects between commands are not decided; seven defects (unbuffered signal channel, plain read of nextPID, unlocked findContext, run request lost while the engine leaves Run, trace task started after the command completed, Context.buffers and the code-object cache unguarded) found and repaired by fix: commits; two known findings (Driver.devices unguarded; a second queue's launch not ordered after the code-object copy)"),
 })
 
 CLAIMED.update({
